@@ -98,8 +98,15 @@ def mutate_obs(r, obs):
     elif k == "ou-region" and spans:
         # an unsorted region whose content belongs to the very beginning of the stream (or far back)
         off, n, e = r.choice(spans[:3] if r.chance(60) else spans)
-        early = r.choice([0, 1, max(0, e.clock - 1), max(0, e.clock - 10 ** 6)])
-        region = tf.enc("OU[", e.clock) + tf.enc("OB.", early, r.bytes(8)) + (tf.enc("OB.", early + 1) if r.chance(50) else b"") + tf.enc("OU]", e.clock)
+        early = r.choice([0, 1, max(0, e.clock - 1), max(0, e.clock - 10 ** 6),
+                          # clocks with the top bit set: smallest when read as signed, largest as unsigned
+                          2 ** 63, 2 ** 63 + 5, 2 ** 64 - 1, e.clock | 2 ** 63])
+        closing = r.weighted([("closed", 70), ("never", 15), ("inverted", 15)])
+        region = tf.enc("OU[", e.clock) + tf.enc("OB.", early, r.bytes(8)) + (tf.enc("OB.", (early + 1) % 2 ** 64) if r.chance(50) else b"")
+        if closing == "closed":
+            region += tf.enc("OU]", e.clock)
+        elif closing == "inverted":
+            region = tf.enc("OU]", e.clock) + region
         b[off:off] = region
     elif k == "insert-garbage":
         i = r.below(len(b) + 1)
